@@ -1685,6 +1685,10 @@ type walker struct {
 	hit    bool
 	frames []*loopFrame
 	labels map[ast.Stmt]string
+	// cutStmt: the statement that executes the target; paths entering it are recorded and dropped.
+	cutStmt ast.Stmt
+	// exits: when set, the states at return statements are accumulated here.
+	exits *vset
 }
 
 func prefixOf(p, q string) bool {
@@ -2395,6 +2399,15 @@ func (w *walker) frameFor(label *ast.Ident, wantLoop bool) *loopFrame {
 func (w *walker) stmt(st ast.Stmt, s vset) vset {
 	n := len(w.u.atoms)
 	empty := newVset(n)
+	if w.cutStmt != nil && st == w.cutStmt {
+		// paths that execute the target end here (used to collect the states of paths that skip it)
+		w.hit = true
+		if w.at == nil {
+			w.at = newVset(n)
+		}
+		w.at = w.at.or(s)
+		return empty
+	}
 	switch t := st.(type) {
 	case nil:
 		return s
@@ -2480,6 +2493,12 @@ func (w *walker) stmt(st ast.Stmt, s vset) vset {
 	case *ast.ReturnStmt:
 		if w.contains(t) {
 			w.record(s)
+		}
+		if w.exits != nil {
+			for _, r := range t.Results {
+				s = w.effects(r, s)
+			}
+			*w.exits = (*w.exits).or(s)
 		}
 		return empty
 	case *ast.BranchStmt:
